@@ -31,8 +31,15 @@ for d in sorted(glob.glob(HERE + "/seeded/C*-*")):
 seeded = "\n".join(rows)
 log = subprocess.run(["git", "-C", "/repo", "log", "--format=%h %s", "d59c62d248..HEAD"], stdout=subprocess.PIPE, text=True).stdout
 hooks = "\n".join("* `%s`" % l for l in log.splitlines()[::-1])
+kf = json.load(open(HERE + "/known_findings.json"))["findings"]
+rows = ["| finding | property | status | what fails (specific input / call site / history) |", "|---|---|---|---|"]
+for f in kf:
+    st = f.get("status", "open")
+    txt = f.get("fixed", f.get("what", "")) if st == "fixed" else f.get("what", "")
+    rows.append("| %s | %s | %s | %s |" % (f["id"], f["property"], st, txt.replace("|", "/")))
+findings = "\n".join(rows)
 dp = HERE + "/DESIGN.md"; s = open(dp).read()
-for tag, body in (("asbuilt", asbuilt), ("seeded", seeded), ("hooks", hooks)):
+for tag, body in (("asbuilt", asbuilt), ("seeded", seeded), ("hooks", hooks), ("findings", findings)):
     s = re.sub(r"(<!-- BEGIN:%s -->).*?(<!-- END:%s -->)" % (tag, tag), lambda m: m.group(1) + "\n" + body + "\n" + m.group(2), s, flags=re.S)
 open(dp, "w").write(s)
 print("DESIGN.md tables regenerated")
